@@ -42,7 +42,8 @@ def rows(quick, fault, drop):
               ("w-partials", "lzip", 2, ["P", "P", "F", "P", "X"], {}, "rand"),
               ("w-empty", "lzma2", 2, ["X"], {}, "tour"),
               ("w-3w", "lzip", 3, ["F", "F", "F", "X"], {}, "rand"),
-              ("w-1w", "lzma2", 1, ["F", "F", "X"], {}, "tour")]
+              ("w-1w", "lzma2", 1, ["F", "F", "X"], {}, "tour"),
+              ("w-preset", "lzma2", 2, ["F", "F", "P", "X"], dict(extra=dict(preset=True)), "rand")]
         if not quick:
             R += [("w-backpressure", "lzma2", 2, ["F", "F", "F", "F", "F", "F", "X"], {}, "rand"),
                   ("w-3w-flush", "lzma2", 3, ["F", "F", "f", "F", "F", "X"], {}, "rand"),
@@ -53,8 +54,10 @@ def rows(quick, fault, drop):
 def cfgs(quick, fault=False, drop=False):
     out = []
     for (name, kind, workers, calls, kw, mode) in rows(quick, fault, drop):
+        kw = dict(kw)
+        extra = kw.pop("extra", None)
         out.append(dict(name=name, fam=kind + "_writer", consts=consts(workers, calls, **kw), mode=mode,
-                        calls=calls, **WRITER))
+                        calls=calls, extra=extra, **WRITER))
     return out
 
 
@@ -82,6 +85,9 @@ def concrete_calls(calls, unit=UNIT):
 
 def make_scn(c, sid, policy):
     k = c["consts"]
-    return {"id": sid, "family": c["fam"], "workers": int(k["MaxWorkers"]), "unit_len": UNIT,
-            "calls": concrete_calls(c["calls"]),
-            "panic": eval(k["PanicUnits"].replace("{", "[").replace("}", "]")), "policy": policy}
+    s = {"id": sid, "family": c["fam"], "workers": int(k["MaxWorkers"]), "unit_len": UNIT,
+         "calls": concrete_calls(c["calls"]),
+         "panic": eval(k["PanicUnits"].replace("{", "[").replace("}", "]")), "policy": policy}
+    if c.get("extra"):
+        s.update(c["extra"])
+    return s
